@@ -40,8 +40,8 @@ GRACE_S = 60
 
 FINDING = 'C18-torn-overwrite-unpickle-escapes'
 
-N = {'quick': dict(payloads=46, keys=6, rec=72, recx=8, conc=20, users=3, realkills=2),
-     'thorough': dict(payloads=640, keys=60, rec=2000, recx=90, conc=600, users=12, realkills=8)}
+N = {'quick': dict(payloads=46, keys=6, rec=72, recx=8, conc=16, users=3, realkills=1),
+     'thorough': dict(payloads=640, keys=60, rec=2000, recx=90, conc=600, users=6, realkills=6)}
 
 CORE = [('scalar', 0), ('scalar', 6), ('scalar', 12), ('scalar', 13), ('scalar', 16), ('scalar', 18), ('scalar', 19),
         ('nested', 1), ('nested', 2), ('nested', 3), ('nested', 4), ('nested', 5),
@@ -110,6 +110,11 @@ class Session:
     def tmp(self):
         return tempfile.mkdtemp(dir=self.root)
 
+    def timeout(self, t):
+        """bound a blocking wait by what is left of the worker's budget (the driver kills the worker GRACE_S after the deadline)"""
+        left = getattr(self.ctx, 'time_left', None)
+        return t if left is None else max(5., min(t, left() + 20.))
+
     def close(self):
         shutil.rmtree(self.root, ignore_errors=True)
 
@@ -131,7 +136,7 @@ def only_file(d):
     return os.path.join(d, fs[0]) if len(fs) == 1 else None
 
 
-def subprocess_job(job, root, timeout=120):
+def subprocess_job(job, root, timeout=90):
     """fresh interpreter; -> (returncode | 'timeout', output json | None)"""
     from vlib import runner
     jf = tempfile.mktemp(dir=root, suffix='.job.json')
@@ -173,7 +178,7 @@ def run_payload(S, spec, users=False):
     import treelog
     res, ctx = S.res, S.ctx
     tier = ctx.tier
-    case = dict(unit='users' if users else 'payload', spec=spec)
+    case = dict(unit='users' if users else 'payload', spec=spec, seed=ctx.seed, tier=ctx.tier)
     P.set_variant('short')
     P.set_fail(False)
     try:
@@ -313,7 +318,7 @@ def run_payload(S, spec, users=False):
                 break
             fault(new[:k], 'trunc', k)
             stats['trunc'] += 1
-            if k < len(new) and not heavy:
+            if k < len(new) and not heavy and (tier == 'thorough' or len(new) <= 400):
                 fault(new[:k] + bytes(len(new) - k), 'zerotail', k, strict=False)
                 stats['zerotail'] += 1
         r = rng_for(ctx.seed, 'c18', 'garbage', spec['seed'], spec['kind'])
@@ -332,19 +337,19 @@ def run_payload(S, spec, users=False):
     # ---- real kills of the writer inside pickle.dump (forked children of this worker)
     rk = rng_for(ctx.seed, 'c18', 'realkill', spec['seed'], spec['kind'])
     nreal = N[tier]['realkills'] if not users else 2
-    ks = sorted({int(x) for x in rk.integers(0, len(new) + 1, nreal)} | {len(new) - 1})
+    ks = sorted({int(x) for x in rk.integers(0, len(new) + 1, nreal)} | ({len(new) - 1} if tier == 'thorough' else set()))
     for n_, k in enumerate(ks):
         if ctx.expired():
             break
         dk = S.tmp()
-        how = 'sigkill' if n_ % 2 else 'exit'
+        how = 'sigkill' if (n_ + spec.get('_index', 0)) % 2 else 'exit'
 
         def writer():
             L.install_killer(k, how=how)
             with cache.enable(dk), treelog.set(L.ListLog()):
                 pl.call(0)
             return 'survived'
-        status, out = L.fork_call(writer, timeout=60)
+        status, out = L.fork_call(writer, timeout=S.timeout(60))
         pk = only_file(dk)
         if status not in ('exit:137', 'signal:9') or pk is None:
             res.count('realkill_unexpected_status')
@@ -369,7 +374,7 @@ def run_payload(S, spec, users=False):
     if not users and not ctx.expired() and idx % (8 if tier == 'thorough' else 6) == 0:
         ds = S.tmp()
         k = int(rk.integers(1, len(new)))
-        rc, out, tail = subprocess_job(dict(mode='write_kill', spec=spec, cachedir=ds, k=k, how='sigkill'), S.root)
+        rc, out, tail = subprocess_job(dict(mode='write_kill', spec=spec, cachedir=ds, k=k, how='sigkill'), S.root, S.timeout(90))
         ps = only_file(ds)
         if rc not in (-9, 137) or ps is None:
             res.count('subprocess_kill_unexpected')
@@ -378,7 +383,7 @@ def run_payload(S, spec, users=False):
             res.count('subprocess_kills')
             if L.read_file(ps) == new[:k]:
                 res.count('fault_model_validated/trunc-subprocess')
-            rc, out, tail = subprocess_job(dict(mode='read', spec=spec, cachedir=ds), S.root)
+            rc, out, tail = subprocess_job(dict(mode='read', spec=spec, cachedir=ds), S.root, S.timeout(90))
             if rc == 'timeout':
                 res.count('subprocess_reader_timeout')
             elif rc != 0 or out is None:
@@ -392,7 +397,7 @@ def run_payload(S, spec, users=False):
                     probs.append(f'fresh reader after SIGKILL at byte {k} executed the function {o.executed} times')
                 for p in probs:
                     S.violation('fault:subprocess', dict(case, family='subprocess', k=k), p)
-                rc, out, tail = subprocess_job(dict(mode='read', spec=spec, cachedir=ds), S.root)
+                rc, out, tail = subprocess_job(dict(mode='read', spec=spec, cachedir=ds), S.root, S.timeout(90))
                 if rc == 0 and out is not None:
                     res.count('calls')
                     o = L.Outcome.from_json(out)
@@ -435,7 +440,7 @@ def run_mix(S, spec, fault, faultnew, seen, stats):
     import treelog
     res, ctx = S.res, S.ctx
     spec2 = dict(spec, dress=1)
-    case = dict(unit='payload', spec=spec, dressed=True)
+    case = dict(unit='payload', spec=spec, dressed=True, seed=ctx.seed, tier=ctx.tier)
     pl = P.Payload(spec2)
     info = dict(bytes=None, incomplete=False)
     plain = faultnew[0]
@@ -469,7 +474,7 @@ def run_mix(S, spec, fault, faultnew, seen, stats):
         if S.mix_model is None or S.mix_seen % 4 == 0:
             S.mix_model, left2, pv = validate_mix_model(S, pl, old, new, j, kv)
         if S.mix_model != 'validated':
-            res.count('mix_not_enumerated/' + S.mix_model)
+            res.count('mix_not_enumerated/' + str(S.mix_model))
             return info
         faultnew[0] = new
         if left2 is not None:       # the real doubly-torn file, read back
@@ -510,11 +515,14 @@ def validate_mix_model(S, pl, old, new, j, kv):
                 pl.call(0)
             return 'survived'
         return run
-    st1, _ = L.fork_call(writer('long', j), timeout=120)
+    st1, _ = L.fork_call(writer('long', j), timeout=S.timeout(60))
     pv = only_file(dv)
     left1 = L.read_file(pv) if pv else None
-    st2, _ = L.fork_call(writer('short', kv), timeout=120)
+    st2, _ = L.fork_call(writer('short', kv), timeout=S.timeout(60))
     left2 = L.read_file(pv) if pv else None
+    if 'timeout' in (st1, st2):
+        res.count('mix_validation_timeout')
+        return None, None, None
     res.count('real_kills', 2)
     if st1 != 'exit:137' or st2 != 'exit:137' or left1 != old[:j]:
         res.count('fault_model_mismatch/mix')
@@ -539,7 +547,7 @@ def run_keys(S, i):
     res = S.res
     rng = rng_for(S.ctx.seed, 'c18', 'keys', i)
     calls = K.gen_calls(rng, 40)
-    case = dict(unit='keys', index=i)
+    case = dict(unit='keys', index=i, seed=S.ctx.seed, tier=S.ctx.tier)
     d = S.tmp()
     for n, c in enumerate(calls):
         fn = K.make_call(c)
@@ -568,7 +576,7 @@ def run_rec(S, i):
     rng = rng_for(S.ctx.seed, 'c18', 'rec', i)
     spec = R.gen_spec(rng, tag=i)
     hist = R.gen_history(rng, NFULL)
-    case = dict(unit='rec', index=i, spec=spec, history=hist)
+    case = dict(unit='rec', index=i, spec=spec, history=hist, seed=S.ctx.seed, tier=S.ctx.tier)
     execute_rec(S, case)
     return case
 
@@ -588,7 +596,7 @@ def execute_rec(S, case):
         return
     probs = []
     for op in hist:
-        probs += R.apply_op(spec, op, d, res)
+        probs += R.apply_op(spec, op, d, res, timeout=S.timeout(30))
     full = R.run(spec, NFULL, d)
     res.count('calls', len(hist) + 2)
     probs += R.diff(full, model, f'full run after history {hist}')
@@ -618,7 +626,7 @@ def run_recx(S, i):
     if i % 4 == 0 and spec['mode'] != 'fib':
         spec['nstop'], spec['raise_at'] = 4, None          # finite: the last file is a stop marker
     nfull = 6
-    case = dict(unit='recx', index=i, spec=spec)
+    case = dict(unit='recx', index=i, spec=spec, seed=ctx.seed, tier=ctx.tier)
     d = S.tmp()
     model = R.run(spec, nfull, None)
     first = R.run(spec, nfull, d)
@@ -675,7 +683,7 @@ def run_conc(S, i):
     res = S.res
     rng = rng_for(S.ctx.seed, 'c18', 'conc', i)
     group = C.gen_group(rng, i)
-    case = dict(unit='conc', group=group)
+    case = dict(unit='conc', group=group, seed=S.ctx.seed, tier=S.ctx.tier)
     execute_conc(S, case)
 
 
@@ -684,7 +692,7 @@ def execute_conc(S, case):
     res = S.res
     group = case['group']
     root = S.tmp()
-    obs = C.run_group(group, root)
+    obs = C.run_group(group, root, S.timeout(90))
     probs, stats = C.check_group(group, obs)
     if stats['timeout']:
         res.count('conc_groups_timeout')
